@@ -21,6 +21,9 @@ import Driver.ExactH
 import Driver.XformH
 import Driver.BwdH
 import Driver.WIntH
+import Driver.InterBUH
+import Driver.ZWidenH
+import Driver.XDomH
 
 /-!
   crabdrv : line-protocol driver.  Reads cases on stdin, one per line
@@ -54,7 +57,9 @@ def dispatch (comp op : String) (args res : List Sexp) : Verdict :=
   | "crawl" => handleCrawl op args res
   | "rgn" => handleRgn op args res
   | "arr" => handleArr op args res
-  | "inter" => handleInter op args res
+  | "inter" => handleInter2 op args res
+  | "zw" => handleZw op args res
+  | "xdom" => handleXDom op args res
   | "idom" => handleIDom op args res
   | "prog" => handleProg op args res
   | "exact" => handleExact op args res
